@@ -57,7 +57,18 @@ func genE2E(t *rapid.T) e2eCase {
 	nd := rapid.IntRange(0, 5).Draw(t, "ndecoys")
 	for i := 0; i < nd; i++ {
 		var tk sqltok.Tok
-		switch rapid.IntRange(0, 5).Draw(t, "dk") {
+		switch rapid.IntRange(0, 8).Draw(t, "dk") {
+		case 6:
+			// comments at their delimiters' edges: "/*/" is an OPEN comment, bodies ending in '*'
+			tk = sqltok.Tok{K: sqltok.CBlock, S: rapid.SampledFrom([]string{"/**/", "/***/", "/*/ ? */", "/*/*/", "/* * / ? */", "/*?*/", "/* ? **/", "/*/?*/"}).Draw(t, "cb_fixed")}
+		case 7:
+			tk = sqltok.Tok{K: sqltok.BQ, S: sqltok.GenBackquoted(t, "bq")}
+		case 8:
+			if rapid.Bool().Draw(t, "line_dash") {
+				tk = sqltok.Tok{K: sqltok.CDash, S: rapid.SampledFrom([]string{"--\n", "-- ?\n", "--\t?\n"}).Draw(t, "dash_fixed")}
+			} else {
+				tk = sqltok.Tok{K: sqltok.CHash, S: rapid.SampledFrom([]string{"#\n", "#?\n", "#'?\n"}).Draw(t, "hash_fixed")}
+			}
 		case 0, 1:
 			tk = sqltok.Tok{K: sqltok.SQ, S: sqltok.GenString(t, '\'', "sq")}
 		case 2:
@@ -68,7 +79,7 @@ func genE2E(t *rapid.T) e2eCase {
 		case 4:
 			tk = sqltok.Tok{K: sqltok.CBlock, S: "/* why? ' */"}
 		default:
-			tk = sqltok.Tok{K: sqltok.SQ, S: rapid.SampledFrom([]string{"'?'", "'a\\'?\\'b'", "'''?'", "'\\\\'"}).Draw(t, "sq_fixed")}
+			tk = sqltok.Tok{K: sqltok.SQ, S: rapid.SampledFrom([]string{"'?'", "'a\\'?\\'b'", "'''?'", "'\\\\'", "''", "'\\\\\\\\'", "'\\''"}).Draw(t, "sq_fixed")}
 		}
 		c.Decoys = append(c.Decoys, tk)
 		c.Where = append(c.Where, rapid.IntRange(0, 1<<20).Draw(t, "where"))
